@@ -135,7 +135,7 @@ def _direct(case, V, sit, cnt):
                 k = int(np.nonzero(bad)[0][0])
                 V.append(C.viol(f"depth {Zn[k]:.6f} m outside [0, {hb[k]:.6f}] (bottom depth of the start cell) after a displacement of {disp[k]:.6f} m from {Zb[k]:.6f} m", **desc))
                 return
-            bad = ok & (np.abs(Zn - ref) > 1e-9 * np.maximum(hb, 1.0))
+            bad = ok & ~(np.abs(Zn - ref) <= 1e-9 * np.maximum(hb, 1.0))
             if np.any(bad):
                 k = int(np.nonzero(bad)[0][0])
                 V.append(C.viol(f"depth {Zn[k]:.9f} m, reflecting boundaries give {ref[k]:.9f} m (start {Zb[k]:.9f}, displacement {disp[k]:.9f}, h {hb[k]:.6f}, "
